@@ -10,6 +10,10 @@ class DotError(Exception):
     pass
 
 
+class QStr(str):
+    """An attribute value that was written as a double-quoted string (not a bare / HTML-like token)."""
+
+
 def _read_id(s, i):
     if i < len(s) and s[i] == '"':
         i += 1
@@ -68,10 +72,11 @@ def parse_statement(line):
             k, i = _read_id(s, i)
             if i >= len(s) or s[i] != '=':
                 raise DotError(f'= expected in {s!r}')
+            quoted = i + 1 < len(s) and s[i + 1] == '"'
             v, i = _read_id(s, i + 1)
             if k in attrs:
                 raise DotError(f'duplicate attribute {k}')
-            attrs[k] = v
+            attrs[k] = QStr(v) if quoted else v
     i = _skip(s, i)
     if i != len(s):
         raise DotError(f'trailing text {s[i:]!r}')
